@@ -1,6 +1,7 @@
 (* C11 — property theorems (statements only; proofs live in Acme.C11.{Proofs,Strings,RoundTrip}).
    Model: Acme.C10.{Export,Import,BusModel}; `export_import b = import (text_roundtrip (export b))`.
-   Partial: the whole-bus theorem `export_import_partial` is proved for PLAIN buses (standard signals,
+   Partial: the whole-bus theorem `export_import_ast_plain_partial` is an AST-level statement (import of the
+   exported AST after the MODELLED write/parse effect; names need not be identifiers) proved for PLAIN buses (standard signals,
    no descriptions / attributes / timing): nodes in order, messages by CAN-ID with name, size, byte
    order, sender, receivers, signals with name, start bit in both byte orders, size, signedness, factor,
    offset, minimum, maximum, unit, names with blanks.  The full statement is
@@ -9,7 +10,7 @@
    through the write/parse effect, SG_MUL_VAL_ ranges, the start-bit conversion, the sanitiser. *)
 From Coq Require Import String ZArith List.
 From Acme.C10 Require Import DbcDoc BusModel Import Export Bits.
-From Acme.C11 Require Import Strings Proofs RoundTrip.
+From Acme.C11 Require Import Strings Proofs RoundTrip Refuted.
 Import ListNotations.
 Open Scope Z_scope.
 
@@ -18,11 +19,11 @@ Theorem start_bit_inverse :
 Proof. exact Proofs.start_bit_inverse. Qed.
 Print Assumptions start_bit_inverse.
 
-(* export -> write/parse -> import is the identity of the projection on plain buses *)
-Theorem export_import_partial : forall b, plain_bus b ->
+(* AST level (export, modelled write/parse effect, import), PLAIN buses only: the projection is reproduced *)
+Theorem export_import_ast_plain_partial : forall b, plain_bus b ->
   exists b', export_import b = Ok b' /\ proj_bus b' = proj_bus b.
 Proof. exact RoundTrip.export_import_plain_thm. Qed.
-Print Assumptions export_import_partial.
+Print Assumptions export_import_ast_plain_partial.
 
 (* attribute definitions of the four types (and hex format), defaults included *)
 Theorem attr_def_roundtrip : forall k name d, wf_def d ->
@@ -50,3 +51,19 @@ Print Assumptions mux_ranges_roundtrip.
 Theorem clear_spaces_idempotent : forall s, clear_spaces (clear_spaces s) = clear_spaces s.
 Proof. exact Strings.clear_spaces_idem. Qed.
 Print Assumptions clear_spaces_idempotent.
+
+(* the three shapes the full statement's hypotheses exclude really fail (open known findings) *)
+Theorem export_import_hex_negative_refuted :
+  check_value (DefInt 0 (-5) 10 true) (ValInt 3) = true /\ forall b', export_import bus_hex_negative <> Ok b'.
+Proof. exact Refuted.export_import_hex_negative_refuted. Qed.
+Print Assumptions export_import_hex_negative_refuted.
+
+Theorem export_import_canid_clash_refuted : forall b', export_import bus_canid_clash <> Ok b'.
+Proof. exact Refuted.export_import_canid_clash_refuted. Qed.
+Print Assumptions export_import_canid_clash_refuted.
+
+Theorem export_import_receivers_without_signals_refuted :
+  exists b', export_import bus_receivers_without_signals = Ok b' /\
+             proj_bus b' <> proj_bus bus_receivers_without_signals.
+Proof. exact Refuted.export_import_receivers_without_signals_refuted. Qed.
+Print Assumptions export_import_receivers_without_signals_refuted.
